@@ -2,6 +2,7 @@ package main
 
 import (
 	"fmt"
+	"time"
 
 	cedar "github.com/cedar-policy/cedar-go"
 	"github.com/cedar-policy/cedar-go/types"
@@ -85,7 +86,13 @@ func runC03(c *vh.Ctx) {
 			for j := 0; j < n; j++ {
 				nQueries++
 				var hook bool
-				if p := vh.Protect(func() { hook = verifhooks.EntityInOne(env, uid(i), uid(j)) }); p != nil {
+				var p any
+				if !vh.WithTimeout(5*time.Second, func() { p = vh.Protect(func() { hook = verifhooks.EntityInOne(env, uid(i), uid(j)) }) }) {
+					c.Report(vh.Finding{Class: "in-nontermination", What: fmt.Sprintf("entityInOne(%d,%d) did not terminate within 5s on graph=%v present=%v", i, j, adj, present),
+						Check: "oracle", Op: "in", Input: map[string]any{"adj": adj, "present": present, "query": []int{i, j}}})
+					c.FlushAndExit()
+				}
+				if p != nil {
 					c.Report(vh.Finding{Class: "in-panic", What: fmt.Sprint(p), Check: "oracle", Op: "in", Input: []any{adj, present, i, j}})
 					continue
 				}
@@ -125,7 +132,13 @@ func runC03(c *vh.Ctx) {
 					}
 				}
 				nQueries++
-				check("entityInSet", verifhooks.EntityInSet(env, uid(i), ts), want, []any{i, mask})
+				var inSet bool
+				if !vh.WithTimeout(5*time.Second, func() { inSet = verifhooks.EntityInSet(env, uid(i), ts) }) {
+					c.Report(vh.Finding{Class: "in-nontermination", What: fmt.Sprintf("entityInSet(%d,mask %d) did not terminate within 5s on graph=%v present=%v", i, mask, adj, present),
+						Check: "oracle", Op: "in", Input: map[string]any{"adj": adj, "present": present, "query": []int{i, mask}}})
+					c.FlushAndExit()
+				}
+				check("entityInSet", inSet, want, []any{i, mask})
 				node := inNode(lit(uid(i)), lit(types.NewSet(tv...)))
 				v, err := eval.Eval(node, env)
 				impl := vh.ShowRes(v, err)
